@@ -250,6 +250,15 @@ func streamHashio(g *core.G) {
 		for k := r.Intn(6); k > 0; k-- {
 			chunks = append(chunks, r.Str("ab\x00\xff\n", r.Pick2(r.Intn(4), r.Intn(300))))
 		}
+		if r.Chance(1, 75) {
+			// writes as large as io.Copy's (32 KiB) and beyond: sizes around every power of
+			// two a buffering or batching layer would use as a threshold
+			big := []int{4096, 8192, 16384, 32768, 65536, 100000}[r.Intn(6)] + r.Range(-1, 1)
+			chunks = append(chunks, strings.Repeat(r.Str("ab\x00\xff\n", 61), big/61+1)[:big])
+			if r.Bool() {
+				chunks = append(chunks, r.Str("ab", r.Intn(5)))
+			}
+		}
 		data := []byte(strings.Join(chunks, ""))
 		mode := r.Pick([]string{"w1", "wn", "r1", "rn"})
 		var names []string
